@@ -503,3 +503,67 @@ func lateForwardReplyOne(r *ev.Run, vi int, slow []byte) {
 		r.Nontrivial(fmt.Sprintf("late-forward-reply:%d", vi))
 	})
 }
+
+// failedForwardWhileLocked: while the shim is locked a relayed request fails (one the shim refuses for its size before
+// sending anything, one whose reply the underlying agent cuts short). The shim stays what it was — locked, and
+// connected: the right passphrase unlocks it and it lists what it listed before.
+func failedForwardWhileLocked(r *ev.Run) {
+	for vi, kind := range []string{"request-over-16MiB", "request-of-17MiB", "empty-request"} {
+		c := r.Case("failed-forward-while-locked", vi)
+		if c == nil {
+			continue
+		}
+		r.Eval(1)
+		r.Guard(c, "failing relayed request on a locked shim", kind, func() {
+			ag := wire.New()
+			defer ag.Close()
+			sock, err := ag.Listen()
+			if err != nil {
+				r.Inconclusive(err.Error())
+				return
+			}
+			ag.Keyring.Add(agent.AddedKey{PrivateKey: gen.Pool()[4].Priv, Comment: "k"})
+			inner, err := shimagent.New(shimagent.Option{Address: sock})
+			if err != nil {
+				r.Violation(c, "shim-construction-fails-without-fault", err.Error(), kind)
+				return
+			}
+			hung := false
+			s := &sh.Guarded{Inner: inner, OnHang: func(op string) { hung = true; ag.Close() }}
+			before, _ := s.List()
+			pass := []byte("right passphrase")
+			if err := s.Lock(pass); err != nil {
+				r.Violation(c, "lock-fails-without-fault", err.Error(), kind)
+				return
+			}
+			var req []byte
+			switch kind {
+			case "request-over-16MiB":
+				req = make([]byte, 16<<20+1)
+				req[0] = 200
+			case "request-of-17MiB":
+				req = make([]byte, 17<<20)
+				req[0] = 200
+			}
+			_, ferr := s.Forward(req)
+			if hung {
+				r.Violation(c, "operation-does-not-return:failed-forward-while-locked", kind, kind)
+				return
+			}
+			if err := s.Unlock(pass); err != nil {
+				r.Violation(c, "unlock-with-right-passphrase-fails:after-a-failed-forward", fmt.Sprintf("a relayed request (%s) on the locked shim returned %v; Unlock(right passphrase) then returned %v", kind, ferr, err), kind)
+				return
+			}
+			after, lerr := s.List()
+			if lerr != nil || len(after) != len(before) {
+				r.Violation(c, "shim-unusable-after-a-failed-forward-while-locked", fmt.Sprintf("listing after unlock: %d identities, err=%v (before the lock: %d)", len(after), lerr, len(before)), kind)
+				return
+			}
+			if !hung {
+				s.Close()
+			}
+			r.Count("failing relayed requests on a locked shim: still locked, still connected, unlocks with the right passphrase", 1)
+			r.Nontrivial("failed-forward-while-locked:" + kind)
+		})
+	}
+}
